@@ -190,12 +190,22 @@ def _dialogue_model(choices, lines, attempts, default):
     return ("failed", reads, errors)
 
 
-def _dialogue_case(li, idx, nlines, attempts, use_default):
+def _dialogue_case(li, idx, nlines, attempts, use_default, prior=0):
     choices = LISTS[li]
     lines = [LINES[k] for k in idx[:nlines]]
     default = "1" if use_default else None
     q = ChoiceQuestion("pick", list(choices), default)
     q.set_max_attempts(attempts)
+    if prior:
+        # the same question object was already asked once (on another I/O) and that dialogue ended by failing / at end of input / with an answer
+        # after an invalid entry: nothing of it may show in this dialogue
+        pio = _io([["zz", "zz", "zz"], ["zz"], ["zz", "a"]][prior - 1])[0]
+        try:
+            q.ask(pio)
+        except ReadBudgetExceeded:
+            return False
+        except Exception:  # noqa - how the earlier dialogue ended is the business of the conditions without a prior dialogue
+            pass
     io, st, out, err = _io(lines)
     try:
         got = q.ask(io)
@@ -230,7 +240,7 @@ def dialogue(k0: int, k1: int, k2: int, nlines: int, attempts: int, use_default:
     """
     idx = [conc_int(k, 0, len(LINES) - 1) for k in (k0, k1, k2)]
     att = conc_int(attempts, 0, 3)
-    return untraced(_dialogue_case, PART["list"], idx, conc_int(nlines, 0, 3), None if att == 0 else att, conc_bool(use_default))
+    return untraced(_dialogue_case, PART["list"], idx, conc_int(nlines, 0, 3), None if att == 0 else att, conc_bool(use_default), PART.get("prior", 0))
 
 
 def dialogue_twin(k0: int, k1: int, k2: int, nlines: int, attempts: int, use_default: bool) -> bool:
@@ -244,11 +254,11 @@ def dialogue_twin(k0: int, k1: int, k2: int, nlines: int, attempts: int, use_def
     return not (ok and untraced(_dialogue_model, LISTS[0], [LINES[idx[0]], LINES[idx[1]]], None, None) == ("aborted", 3, 2))
 
 
-CONF_ALPHA = "yYnja "
+CONF_ALPHA = "yYnjJa "
 
 
 def _confirm_case(pattern_i, default, answer, eof):
-    regex, matcher = [("(?i)^y", lambda a: a[:1] in ("y", "Y")), ("^(j|ja)$", lambda a: a in ("j", "ja"))][pattern_i]
+    regex, matcher = [("(?i)^y", lambda a: a[:1] in ("y", "Y")), ("^(j|ja)$", lambda a: a in ("j", "ja")), ("^Y", lambda a: a[:1] == "Y")][pattern_i]
     q = ConfirmationQuestion("sure", default, regex)
     io, st, out, err = _io([] if eof else [answer])
     try:
@@ -268,10 +278,10 @@ def confirm(answer: str, default: bool, pattern: int, eof: bool) -> bool:
     """
     pre: len(answer) <= PART["n"]
     pre: all(c in CONF_ALPHA for c in answer)
-    pre: 0 <= pattern <= 1
+    pre: 0 <= pattern <= 2 and pattern == PART["pattern"]
     post: _
     """
-    return untraced(_confirm_case, conc_int(pattern, 0, 1), conc_bool(default), conc_str(answer, CONF_ALPHA), conc_bool(eof))
+    return untraced(_confirm_case, conc_int(pattern, 0, 2), conc_bool(default), conc_str(answer, CONF_ALPHA), conc_bool(eof))
 
 
 def _non_interactive_case(kind, default_i):
@@ -314,9 +324,14 @@ def conditions(tier):
         for att in range(4):
             conds.append({"name": "dialogue[%d,attempts=%s]" % (li, att or "unlimited"), "fn": dialogue, "timeout": t, "part": {"list": li, "attempts": att},
                           "bounds": "choices %r; scripts of 0-3 lines from %r then end of input; attempts %s; default none or '1'" % (LISTS[li], LINES, att or "unlimited")})
+    for prior, pn in ((1, "failed or aborted after three invalid entries"), (2, "aborted at end of input after one invalid entry"), (3, "answered after one invalid entry")):
+        for att in ((0, 2) if quick else range(4)):
+            conds.append({"name": "dialogue_again[attempts=%s,earlier dialogue %s]" % (att or "unlimited", pn), "fn": dialogue, "timeout": t, "part": {"list": 0, "attempts": att, "prior": prior},
+                          "bounds": "the SAME question object asked a second time (first dialogue: %s): scripts of 0-3 lines from %r then end of input; attempts %s" % (pn, LINES, att or "unlimited")})
     conds.append({"name": "validate_twin", "fn": validate_twin, "timeout": t, "expect": "refute", "part": {"list": 0, "n": 3}, "bounds": "reachability twin"})
     conds.append({"name": "dialogue_twin", "fn": dialogue_twin, "timeout": t, "expect": "refute", "part": {"list": 0}, "bounds": "reachability twin (two invalid lines, then end of input, unlimited attempts)"})
-    conds.append({"name": "confirm", "fn": confirm, "timeout": t, "part": {"n": 3 if quick else 4},
-                  "bounds": "patterns (?i)^y and ^(j|ja)$, defaults yes/no, every answer <= %d chars over {y,Y,n,j,a,space}, end of input" % (3 if quick else 4)})
+    for pi, pat in enumerate(["(?i)^y", "^(j|ja)$", "^Y"]):
+      conds.append({"name": "confirm[%s]" % pat, "fn": confirm, "timeout": t, "part": {"n": 3 if quick else 4, "pattern": pi},
+                  "bounds": "patterns (?i)^y, ^(j|ja)$ and ^Y (the last two case-sensitive), defaults yes/no, every answer <= %d chars over {y,Y,n,j,J,a,space}, end of input" % (3 if quick else 4)})
     conds.append({"name": "non_interactive", "fn": non_interactive, "timeout": t, "bounds": "plain / choice / confirmation / validated question x 5 defaults on a non-interactive input"})
     return conds
